@@ -57,6 +57,8 @@ var targets = map[string][]string{
 		"Router.Start", "Router.Stop", "Router.Send", "Router.connect", "Router.removeConnection", "Router.handleConn",
 		"Router.registerConnection+cond", "Router.launchHandleRoutine+cond", "Router.receiveServerIdentity+cond",
 		"Router.triggerConnectionErrorHandlers"},
+	"network/dispatch.go": {"BlockingDispatcher.Dispatch", "RoutineDispatcher.Dispatch"},
+	"service.go":          {"serviceManager.Process"},
 	"network/tls.go": {"makeVerifier+cond", "certMaker.get", "NewTLSListenerWithListenAddr", "NewTLSConn", "tlsConfig"},
 	"network/address.go": {"Address.Valid+cond", "validHostname+cond", "Address.ConnType+cond", "Address.NetworkAddress+cond",
 		"Address.Host+cond", "Address.Port+cond", "Address.IsHostname+cond", "NewAddress"},
